@@ -481,6 +481,7 @@ def run(ctx):
         any(x.get("class") == "D7" or "D7" in x.get("what", "") for x in json.load(open(os.path.join(ROOT, "known_findings", "C08.json"))).get("fixed", []))
     n = 120 if ctx.tier == "quick" else 1500
     mism, fails, hist, nontrivial = [], [], {}, set()
+    hist_mtime = {}
     evals = 0
     xc = {"cases": 0, "disagreements": 0, "first": None}      # python-fact path vs composed Coq path
     xc_every = 3 if ctx.tier == "quick" else 4
@@ -502,7 +503,16 @@ def run(ctx):
                 proj.add_file(path, size, rng.choice([0, 0, 2]), rng.choice([0, 1]))
         with Sandbox() as sb:
             for rel in proj.files:
-                sb.write(rel, proj.body(rel))
+                fp = sb.write(rel, proj.body(rel))
+                # the modification time of a readable file has no say in the verdict: some files are dated before 1970
+                # (archives unpacked without time stamps, a clock that was never set), some far in the future
+                r = rng.random()
+                if r < 0.12:
+                    os.utime(fp, (-315619200, -315619200))
+                    hist_mtime["pre-1970"] = hist_mtime.get("pre-1970", 0) + 1
+                elif r < 0.18:
+                    os.utime(fp, (4102444800, 4102444800))
+                    hist_mtime["year-2100"] = hist_mtime.get("year-2100", 0) + 1
             # the configuration and ignore files are entries of the root directory like any other
             if cfg["gitignore"]:
                 sb.write(".gitignore", "\n".join(cfg["gitignore"]) + "\n")
@@ -627,6 +637,7 @@ def run(ctx):
                        "--warnings-as-errors, --no-gitignore, --count-comments/--count-blank, --warn-threshold, --baseline with random entries); the per-path facts are recomputed "
                        "from the tree by tools/props/c01.py (globset as oracle), fed to the extracted pipeline model, and statuses + exit code compared with the CLI; "
                        "non-trivial = distinct case with at least one non-passed result")
+    hist["file_mtime"] = hist_mtime
     ctx.cov["input_distribution"] = hist
     ctx.cov["model_vs_impl_mismatches"] = len(mism)
     ctx.cov["oracle_cross_check"] = dict(xc, what="python re-computation of the per-file facts + fact-level model check_run against the extracted composition check_command "
